@@ -91,13 +91,14 @@ pub uninterp spec fn n_parent(rev: int, n: Node) -> Option<Arc<Node>>;
 pub open spec fn n_children(rev: int, n: Node) -> Seq<Arc<Node>> { n_children_in(rev, n, NodeOutputKind::Normal, None) }
 impl Node {
     pub open spec fn s_kind(&self) -> NodeKind { kind_of(self.content) }
-    // TRUSTED (each mirrors a 1-5 line body of tree/node.rs over the RwLock'd link fields)
+    // TRUSTED (each mirrors a 1-5 line body of tree/node.rs over the RwLock'd link fields); tree-shape fact ASSUMED from tree/build.rs:
+    // the workflow node is nobody's child or successor
     #[verifier::external_body]
-    pub fn next(&self, Tracked(h): Tracked<&Heap>) -> (r: WeakNode) ensures r.target() == n_next(h.links_rev, *self) { unimplemented!() }
+    pub fn next(&self, Tracked(h): Tracked<&Heap>) -> (r: WeakNode) ensures r.target() == n_next(h.links_rev, *self), r.target() is Some ==> r.target()->Some_0.s_kind() != NodeKind::Workflow { unimplemented!() }
     #[verifier::external_body]
-    pub fn children(&self, Tracked(h): Tracked<&Heap>) -> (r: Vec<Arc<Node>>) ensures r@ == n_children(h.links_rev, *self) { unimplemented!() }
+    pub fn children(&self, Tracked(h): Tracked<&Heap>) -> (r: Vec<Arc<Node>>) ensures r@ == n_children(h.links_rev, *self), forall|i: int| 0 <= i < r@.len() ==> (#[trigger] r@[i]).s_kind() != NodeKind::Workflow { unimplemented!() }
     #[verifier::external_body]
-    pub fn children_in(&self, typ: NodeOutputKind, on: Option<String>, Tracked(h): Tracked<&Heap>) -> (r: Vec<Arc<Node>>) ensures r@ == n_children_in(h.links_rev, *self, typ, opt_str(on)) { unimplemented!() }
+    pub fn children_in(&self, typ: NodeOutputKind, on: Option<String>, Tracked(h): Tracked<&Heap>) -> (r: Vec<Arc<Node>>) ensures r@ == n_children_in(h.links_rev, *self, typ, opt_str(on)), forall|i: int| 0 <= i < r@.len() ==> (#[trigger] r@[i]).s_kind() != NodeKind::Workflow { unimplemented!() }
     #[verifier::external_body]
     pub fn parent(&self, Tracked(h): Tracked<&Heap>) -> (r: Option<Arc<Node>>) ensures r == n_parent(h.links_rev, *self) { unimplemented!() }
     #[verifier::external_body]
@@ -136,9 +137,14 @@ pub ghost struct Heap {
 pub const ROOT_TID: &'static str = "$";
 
 impl Heap {
-    // the context's current task exists; the process is not terminal while its root task is not (process.rs / context.rs keep the mirror)
+    // heap invariant kept by every primitive (lemma_stub_consequences):
+    //  - the context's current task exists
+    //  - the process mirrors its root task: same state once the root is terminal, not terminal before (task.rs set_state / context.rs emit_task)
+    //  - an error is recorded only on a task in state Error (set_state clears it otherwise); only the root task sits on the workflow node
     pub open spec fn wf(&self) -> bool {
-        self.has(self.cur) && (self.has(ROOT_TID@) && !st_terminal(self.st(ROOT_TID@)) ==> !st_terminal(self.proc_state))
+        &&& self.has(self.cur)
+        &&& (self.has(ROOT_TID@) ==> (if st_terminal(self.st(ROOT_TID@)) { self.proc_state == self.st(ROOT_TID@) } else { !st_terminal(self.proc_state) }))
+        &&& forall|t: Tid| #[trigger] self.has(t) ==> (self.tasks[t].err is Some ==> self.st(t) is Error) && (self.tasks[t].node.s_kind() == NodeKind::Workflow ==> t == ROOT_TID@)
     }
     pub open spec fn has(&self, t: Tid) -> bool { self.tasks.dom().contains(t) }
     pub open spec fn st(&self, t: Tid) -> TaskState { self.tasks[t].state }
@@ -252,6 +258,9 @@ impl Task {
             legal(old(h).st(self.id@), TaskState::Error),
         ensures
             *final(h) == set_state_spec(Heap { tasks: old(h).tasks.insert(self.id@, TaskAbs { err: Some(*err), ..old(h).tasks[self.id@] }), ..*old(h) }, self.id@, TaskState::Error),
+            // consequences
+            final(h).cur == old(h).cur, final(h).has(self.id@), final(h).st(self.id@) is Error, final(h).tasks[self.id@].err == Some(*err),
+            old(h).wf() ==> final(h).wf() && fwd(*old(h), *final(h)),
     { unimplemented!() }
     #[verifier::external_body]
     pub fn set_data(&self, vars: &Vars, Tracked(h): Tracked<&mut Heap>)
@@ -331,14 +340,14 @@ impl Process {
         requires legal(old(h).proc_state, state)
         ensures *final(h) == (Heap { proc_state: state, ..*old(h) }),
                 fwd(*old(h), *final(h)), final(h).cur == old(h).cur,     // consequences
-                old(h).wf() && (!st_terminal(state) || !old(h).has(ROOT_TID@) || st_terminal(old(h).st(ROOT_TID@))) ==> final(h).wf(),
+                old(h).wf() && (if old(h).has(ROOT_TID@) && st_terminal(old(h).st(ROOT_TID@)) { state == old(h).st(ROOT_TID@) } else { !st_terminal(state) }) ==> final(h).wf(),
     { unimplemented!() }
     #[verifier::external_body]
     pub fn set_err(&self, err: &Error, Tracked(h): Tracked<&mut Heap>)
         requires legal(old(h).proc_state, TaskState::Error)
         ensures *final(h) == (Heap { proc_state: TaskState::Error, proc_err: Some(*err), ..*old(h) }),
                 fwd(*old(h), *final(h)), final(h).cur == old(h).cur,     // consequences
-                old(h).wf() && (!old(h).has(ROOT_TID@) || st_terminal(old(h).st(ROOT_TID@))) ==> final(h).wf(),
+                old(h).wf() && old(h).has(ROOT_TID@) && old(h).st(ROOT_TID@) is Error ==> final(h).wf(),
     { unimplemented!() }
     #[verifier::external_body]
     pub fn task(&self, tid: &str, Tracked(h): Tracked<&Heap>) -> (r: Option<Arc<Task>>)
@@ -357,7 +366,7 @@ impl Process {
             // only the workflow node gets the root tid "$" (process.rs: create_task)
             r.id@ == ROOT_TID@ <==> node.s_kind() == NodeKind::Workflow,
             *final(h) == (Heap { tasks: old(h).tasks.insert(r.id@, fresh_task(*node, match prev { Some(p) => Some(p.id@), None => None })), ..*old(h) }),
-            fwd(*old(h), *final(h)), old(h).wf() && r.id@ != ROOT_TID@ ==> final(h).wf(), final(h).cur == old(h).cur, wf_task(*final(h), *r),   // consequences (lemma_create_fwd)
+            fwd(*old(h), *final(h)), old(h).wf() && node.s_kind() != NodeKind::Workflow ==> final(h).wf(), final(h).cur == old(h).cur, wf_task(*final(h), *r),   // consequences
     { unimplemented!() }
 }
 impl Runtime {
@@ -407,20 +416,55 @@ pub proof fn lemma_stub_consequences(a: Heap, t: Tid, k: Seq<char>, v: bool, x: 
         a.wf() ==> (Heap { tasks: a.tasks.insert(t, TaskAbs { flags: a.tasks[t].flags.insert(k, v), ..a.tasks[t] }), ..a }).wf(),
         data_written(a, b2, t) ==> fwd(a, b2) && (a.wf() ==> b2.wf()) && b2.cur == a.cur,
         !a.has(x) ==> fwd(a, Heap { tasks: a.tasks.insert(x, fresh_task(node, prev)), ..a }),
-        !a.has(x) && x != ROOT_TID@ && a.wf() ==> (Heap { tasks: a.tasks.insert(x, fresh_task(node, prev)), ..a }).wf(),
+        !a.has(x) && (x == ROOT_TID@ <==> node.s_kind() == NodeKind::Workflow) && node.s_kind() != NodeKind::Workflow && a.wf() ==> (Heap { tasks: a.tasks.insert(x, fresh_task(node, prev)), ..a }).wf(),
         fwd(a, Heap { queue: a.queue.push(t), ..a }) && (a.wf() ==> (Heap { queue: a.queue.push(t), ..a }).wf()),
         legal(a.proc_state, s) ==> fwd(a, Heap { proc_state: s, ..a }),
         legal(a.proc_state, TaskState::Error) ==> fwd(a, Heap { proc_state: TaskState::Error, proc_err: Some(e), ..a }),
         fwd(a, Heap { proc_events: a.proc_events.push(a.proc_state), ..a }),
+        // set_state / set_err
+        a.wf() && (legal(a.st(t), s) || catch_revive(a.tasks[t], s)) && !(t == ROOT_TID@ && a.st(t) is Error && s is Running)
+            ==> set_state_spec(a, t, s).wf() && fwd(a, set_state_spec(a, t, s)),
+        a.wf() && legal(a.st(t), TaskState::Error)
+            ==> set_state_spec(Heap { tasks: a.tasks.insert(t, TaskAbs { err: Some(e), ..a.tasks[t] }), ..a }, t, TaskState::Error).wf()
+                && fwd(a, set_state_spec(Heap { tasks: a.tasks.insert(t, TaskAbs { err: Some(e), ..a.tasks[t] }), ..a }, t, TaskState::Error)),
 {
+    // wf only looks at cur, proc_state, and (state, err, node) of each task
+    let h0 = Heap { cur: t, ..a };
+    if a.wf() {
+        assert forall|y: Tid| #[trigger] h0.has(y) implies (h0.tasks[y].err is Some ==> h0.st(y) is Error) && (h0.tasks[y].node.s_kind() == NodeKind::Workflow ==> y == ROOT_TID@) by { assert(a.has(y)); }
+    }
     let h1 = Heap { tasks: a.tasks.insert(t, TaskAbs { flags: a.tasks[t].flags.insert(k, v), ..a.tasks[t] }), ..a };
     assert forall|y: Tid| #[trigger] a.has(y) implies h1.has(y) && task_fwd(a.tasks[y], h1.tasks[y]) by {}
+    if a.wf() {
+        assert forall|y: Tid| #[trigger] h1.has(y) implies (h1.tasks[y].err is Some ==> h1.st(y) is Error) && (h1.tasks[y].node.s_kind() == NodeKind::Workflow ==> y == ROOT_TID@) by { assert(a.has(y)); }
+    }
     if data_written(a, b2, t) {
         assert forall|y: Tid| #[trigger] a.has(y) implies b2.has(y) && task_fwd(a.tasks[y], b2.tasks[y]) by {}
+        if a.wf() {
+            assert forall|y: Tid| #[trigger] b2.has(y) implies (b2.tasks[y].err is Some ==> b2.st(y) is Error) && (b2.tasks[y].node.s_kind() == NodeKind::Workflow ==> y == ROOT_TID@) by { assert(a.has(y)); }
+        }
     }
     if !a.has(x) {
         let h2 = Heap { tasks: a.tasks.insert(x, fresh_task(node, prev)), ..a };
         assert forall|y: Tid| #[trigger] a.has(y) implies h2.has(y) && task_fwd(a.tasks[y], h2.tasks[y]) by {}
+        if a.wf() && (x == ROOT_TID@ <==> node.s_kind() == NodeKind::Workflow) && node.s_kind() != NodeKind::Workflow {
+            assert forall|y: Tid| #[trigger] h2.has(y) implies (h2.tasks[y].err is Some ==> h2.st(y) is Error) && (h2.tasks[y].node.s_kind() == NodeKind::Workflow ==> y == ROOT_TID@) by { if y != x { assert(a.has(y)); } }
+        }
+    }
+    let h3 = Heap { queue: a.queue.push(t), ..a };
+    if a.wf() {
+        assert forall|y: Tid| #[trigger] h3.has(y) implies (h3.tasks[y].err is Some ==> h3.st(y) is Error) && (h3.tasks[y].node.s_kind() == NodeKind::Workflow ==> y == ROOT_TID@) by { assert(a.has(y)); }
+    }
+    if a.wf() && (legal(a.st(t), s) || catch_revive(a.tasks[t], s)) && !(t == ROOT_TID@ && a.st(t) is Error && s is Running) {
+        let g = set_state_spec(a, t, s);
+        assert forall|y: Tid| #[trigger] a.has(y) implies g.has(y) && task_fwd(a.tasks[y], g.tasks[y]) by {}
+        assert forall|y: Tid| #[trigger] g.has(y) implies (g.tasks[y].err is Some ==> g.st(y) is Error) && (g.tasks[y].node.s_kind() == NodeKind::Workflow ==> y == ROOT_TID@) by { assert(a.has(y)); }
+    }
+    if a.wf() && legal(a.st(t), TaskState::Error) {
+        let a1 = Heap { tasks: a.tasks.insert(t, TaskAbs { err: Some(e), ..a.tasks[t] }), ..a };
+        let g = set_state_spec(a1, t, TaskState::Error);
+        assert forall|y: Tid| #[trigger] a.has(y) implies g.has(y) && task_fwd(a.tasks[y], g.tasks[y]) by {}
+        assert forall|y: Tid| #[trigger] g.has(y) implies (g.tasks[y].err is Some ==> g.st(y) is Error) && (g.tasks[y].node.s_kind() == NodeKind::Workflow ==> y == ROOT_TID@) by { assert(a.has(y)); }
     }
 }
 pub proof fn lemma_data_only_fwd(a: Heap, b: Heap)
